@@ -32,12 +32,13 @@ package prompting
 // it from the holder is the only one allowed to invoke it and must send it
 // back. The ghost maps count the channel operations executed by the verified
 // function itself (govc updates them at every send / successful receive /
-// close): chsends[c], chrecvs[c], chcloses[c]; chlast[c] is the last value the
-// function sent on c. pinvoked[p] counts invocations of prompter p.
+// close): chsends[c], chrecvs[c], chcloses[c]; chlast[c] / chlastrecv[c] are the
+// last value the function sent on / successfully received from c. pinvoked[p] counts invocations of prompter p.
 //@ ghost chsends map[int]int
 //@ ghost chrecvs map[int]int
 //@ ghost chcloses map[int]int
 //@ ghost chlast map[int]int
+//@ ghost chlastrecv map[int]int
 //@ ghost pinvoked map[int]int
 
 // The registry map is created by the package initialiser and never reassigned.
@@ -67,28 +68,30 @@ package prompting
 // token (it has received it from the holder, successfully, and has not yet
 // sent it back), it is the value received, it is invoked at most once, and on
 // every path the token is sent back exactly as often as it was received; the
-// holder is never closed here.
+// holder is never closed here. In the postconditions the holder is named by
+// what it is for a caller: the registry entry at entry, held(identifier).
+//@ spec held(id) int = old(registry[id])
 //@ func Message
-//@   at call Prompter.Message assert[holding] ok && arg0 == prompter && chrecvs[holder] == old(chrecvs[holder]) + 1 && chsends[holder] == old(chsends[holder])
-//@   ensures[balanced] chsends[holder] - old(chsends[holder]) == chrecvs[holder] - old(chrecvs[holder]) && chrecvs[holder] <= old(chrecvs[holder]) + 1
-//@   ensures[same] chrecvs[holder] > old(chrecvs[holder]) ==> chlast[holder] == prompter && pinvoked[prompter] == old(pinvoked[prompter]) + 1
-//@   ensures[idle] chrecvs[holder] == old(chrecvs[holder]) ==> pinvoked == old(pinvoked)
+//@   at call Prompter.Message assert[holding] ok && holder == held(identifier) && arg0 == prompter && chlastrecv[holder] == prompter && chrecvs[holder] == old(chrecvs)[holder] + 1 && chsends[holder] == old(chsends)[holder]
+//@   ensures[balanced] chsends[held(identifier)] - old(chsends)[held(identifier)] == chrecvs[held(identifier)] - old(chrecvs)[held(identifier)] && chrecvs[held(identifier)] <= old(chrecvs)[held(identifier)] + 1
+//@   ensures[same] chrecvs[held(identifier)] > old(chrecvs)[held(identifier)] ==> chlast[held(identifier)] == chlastrecv[held(identifier)] && pinvoked[chlastrecv[held(identifier)]] == old(pinvoked)[chlastrecv[held(identifier)]] + 1
+//@   ensures[idle] chrecvs[held(identifier)] == old(chrecvs)[held(identifier)] ==> pinvoked == old(pinvoked)
 //@   ensures[noclose] chcloses == old(chcloses)
 
 //@ func Prompt
-//@   at call Prompter.Prompt assert[holding] ok && arg0 == prompter && chrecvs[holder] == old(chrecvs[holder]) + 1 && chsends[holder] == old(chsends[holder])
-//@   ensures[balanced] chsends[holder] - old(chsends[holder]) == chrecvs[holder] - old(chrecvs[holder]) && chrecvs[holder] <= old(chrecvs[holder]) + 1
-//@   ensures[same] chrecvs[holder] > old(chrecvs[holder]) ==> chlast[holder] == prompter && pinvoked[prompter] == old(pinvoked[prompter]) + 1
-//@   ensures[idle] chrecvs[holder] == old(chrecvs[holder]) ==> pinvoked == old(pinvoked)
+//@   at call Prompter.Prompt assert[holding] ok && holder == held(identifier) && arg0 == prompter && chlastrecv[holder] == prompter && chrecvs[holder] == old(chrecvs)[holder] + 1 && chsends[holder] == old(chsends)[holder]
+//@   ensures[balanced] chsends[held(identifier)] - old(chsends)[held(identifier)] == chrecvs[held(identifier)] - old(chrecvs)[held(identifier)] && chrecvs[held(identifier)] <= old(chrecvs)[held(identifier)] + 1
+//@   ensures[same] chrecvs[held(identifier)] > old(chrecvs)[held(identifier)] ==> chlast[held(identifier)] == chlastrecv[held(identifier)] && pinvoked[chlastrecv[held(identifier)]] == old(pinvoked)[chlastrecv[held(identifier)]] + 1
+//@   ensures[idle] chrecvs[held(identifier)] == old(chrecvs)[held(identifier)] ==> pinvoked == old(pinvoked)
 //@   ensures[noclose] chcloses == old(chcloses)
 
 // Unregistration removes the holder from the registry first, then takes the
 // token (so it waits for an invocation in flight), and only then closes the
 // holder; it never sends the token back and never invokes the prompter.
 //@ func UnregisterPrompter
-//@   at call close assert[tokenfirst] arg0 == holder && chrecvs[holder] == old(chrecvs[holder]) + 1 && !registered(identifier)
+//@   at call close assert[tokenfirst] arg0 == holder && holder == held(identifier) && chrecvs[holder] == old(chrecvs)[holder] + 1 && !registered(identifier)
 //@   ensures[removed] !registered(identifier)
-//@   ensures[taken] chrecvs[holder] == old(chrecvs[holder]) + 1 && chsends[holder] == old(chsends[holder]) && chcloses[holder] == old(chcloses[holder]) + 1 && holder == old(registry[identifier])
+//@   ensures[taken] chrecvs[held(identifier)] == old(chrecvs)[held(identifier)] + 1 && chsends[held(identifier)] == old(chsends)[held(identifier)] && chcloses[held(identifier)] == old(chcloses)[held(identifier)] + 1
 //@   ensures[quiet] pinvoked == old(pinvoked)
 
 // The automatic command-line prompt asks for an echoed response exactly for
